@@ -101,3 +101,91 @@ pub proof fn lemma_rm_pre<P: Prefix, T>(t: Seq<Node<P, T>>, live: ISet<int>, idx
         }
     }
 }
+
+/// `remove`: what the abstract map says about the node found by the search
+pub proof fn lemma_remove_content_pre<P: Prefix, T>(m0: PrefixMap<P, T>, idx: int)
+    requires m0.wf(), m0.live().contains(idx)
+    ensures
+        m0.content().dom().contains(kb(m0.tab(), idx)) == m0.tab()[idx].value.is_some(),
+        m0.tab()[idx].value.is_some() ==> m0.content()[kb(m0.tab(), idx)].1 == m0.tab()[idx].value.unwrap(),
+{
+    lemma_pre_refl(kb(m0.tab(), idx));
+    lemma_get_step(m0.tab(), m0.live(), idx, kb(m0.tab(), idx));
+}
+
+/// keys (as bit strings) and links of every slot are the same
+pub open spec fn shape_same<P: Prefix, T>(t0: Seq<Node<P, T>>, t1: Seq<Node<P, T>>) -> bool {
+    t1.len() == t0.len() && forall|j: int| 0 <= j < t0.len() ==> #[trigger] same_shape_at(t0, t1, j)
+}
+
+/// state at the `break` of remove_keep_tree's search loop
+pub open spec fn rkt_break<P: Prefix, T>(m0: PrefixMap<P, T>, m1: PrefixMap<P, T>, idx: int, q: Seq<bool>, value: Option<T>) -> bool {
+    m0.live().contains(idx)
+    && m1.free@ == m0.free@ && m1.count == m0.count && m1.tab().len() == m0.tab().len()
+    && frame_nodes(m0.tab(), m1.tab(), idx, idx, idx)
+    && m1.tab()[idx].prefix == m0.tab()[idx].prefix && m1.tab()[idx].left == m0.tab()[idx].left && m1.tab()[idx].right == m0.tab()[idx].right
+    && (if kb(m0.tab(), idx) =~= q {
+            value == m0.tab()[idx].value && m1.tab()[idx].value.is_none()
+        } else {
+            value.is_none() && m1.tab()[idx].value == m0.tab()[idx].value && !m0.content().dom().contains(q)
+        })
+}
+
+pub proof fn lemma_rkt<P: Prefix, T>(m0: PrefixMap<P, T>, m1: PrefixMap<P, T>, idx: int, q: Seq<bool>, value: Option<T>)
+    requires m0.wf(), rkt_break(m0, m1, idx, q, value)
+    ensures
+        value.is_some() ==> m1.count >= 1,
+        value.is_some() == m0.content().dom().contains(q),
+        value.is_some() ==> value.unwrap() == m0.content()[q].1,
+{
+    lemma_pre_refl(kb(m0.tab(), idx));
+    lemma_get_step(m0.tab(), m0.live(), idx, kb(m0.tab(), idx));
+    if value.is_some() {
+        lemma_nval_pos(m0.tab(), m0.live(), m0.tab().len() as int, idx);
+        assert(kb(m0.tab(), idx) == q);
+    }
+}
+
+pub proof fn lemma_rkt_final<P: Prefix, T>(m0: PrefixMap<P, T>, m1: PrefixMap<P, T>, idx: int, q: Seq<bool>, value: Option<T>)
+    requires
+        m0.wf(), m0.live().contains(idx),
+        m1.free@ == m0.free@, m1.tab().len() == m0.tab().len(), // [FREE,C15]
+        frame_nodes(m0.tab(), m1.tab(), idx, idx, idx), // [SHAPE,C01,C15]
+        m1.tab()[idx].prefix == m0.tab()[idx].prefix, // [C18,C01]
+        m1.tab()[idx].left == m0.tab()[idx].left && m1.tab()[idx].right == m0.tab()[idx].right, // [SHAPE,C15]
+        (if kb(m0.tab(), idx) =~= q {
+            value == m0.tab()[idx].value && m1.tab()[idx].value.is_none()
+        } else {
+            value.is_none() && m1.tab()[idx].value == m0.tab()[idx].value && !m0.content().dom().contains(q)
+        }), // [C01]
+        m1.count as int == m0.count as int - (if value.is_some() { 1int } else { 0int }), // [COUNT]
+    ensures
+        m1.wf_shape(), m1.wf_free(), m1.wf_count(),
+        m1.content() =~= m0.content().remove(q),
+        shape_same(m0.tab(), m1.tab()),
+{
+    let t0 = m0.tab(); let t1 = m1.tab(); let l0 = m0.live();
+    assert(m1.live() =~= l0);
+    let par = choose|par: spec_fn(int) -> int| tloc(t0, l0, par);
+    assert forall|j: int| 0 <= j < t0.len() implies #[trigger] same_shape_at(t0, t1, j) by {
+        if j != idx { assert(t1[j] == t0[j]); }
+    }
+    lemma_relink_same(t0, l0, par, t1);
+    assert(twf_live(t1, m1.live()));
+    if kb(t0, idx) =~= q {
+        assert(kb(t0, idx) == q);
+        assert forall|j: int| #![trigger t1[j]] 0 <= j < t0.len() implies t1[j].prefix == t0[j].prefix by {
+            if j != idx { assert(t1[j] == t0[j]); }
+        }
+        assert forall|j: int| #![trigger t1[j]] 0 <= j < t0.len() && j != idx implies t1[j].value == t0[j].value by {
+            assert(t1[j] == t0[j]);
+        }
+        lemma_remove_content_count(m0, m1, idx);
+    } else {
+        assert forall|j: int| 0 <= j < t0.len() implies t1[j] == t0[j] by {
+            if j != idx { assert(t1[j] == t0[j]); }
+        }
+        assert(t1 =~= t0);
+        assert(m1.content() =~= m0.content().remove(q));
+    }
+}
